@@ -360,7 +360,7 @@ func (e *c17HEnv) run(c c17HCase) (res c17HResult) {
 		return
 	}
 	nodeAlive := !dead()
-	if nodeAlive != mAlive {
+	if nodeAlive != mAlive && !mMid { // after a truncation the model does not predict whether the fragment already fails
 		res.diags = append(res.diags, fmt.Sprintf("diag_model_alive=%v_node_alive=%v", mAlive, nodeAlive))
 	}
 	// still serving? probe on channel 3 unless the node is (per the model) in the middle of a frame
@@ -458,8 +458,12 @@ func TestVerifC17Hostile(t *testing.T) {
 		"non-trivial = contains a hostile item, a truncation, a capacity overflow or at least two items"
 	r.Assume("a peer that stalls in the middle of a frame is handled by the ping/pong timeout, which is configured out here (ping interval 1000h); the harness closes the stream instead")
 	e := newC17HEnv()
-	r.Set("alphabet_legit", len(e.legit))
-	r.Set("alphabet_hostile", len(e.hostile))
+	if r.Shard == 0 {
+		r.Set("alphabet_legit", len(e.legit))
+	}
+	if r.Shard == 0 {
+		r.Set("alphabet_hostile", len(e.hostile))
+	}
 	var rc c17HCase
 	if rep, skip := r.ReplayCase(&rc); skip {
 		return
@@ -643,5 +647,7 @@ func TestVerifC17Hostile(t *testing.T) {
 			r.Bound += fmt.Sprintf("; C: all legit sequences of length %d", n)
 		}
 	}
-	r.Set("cases_enumerated_total", k)
+	if r.Shard == 0 {
+		r.Set("cases_enumerated_total", k)
+	}
 }
